@@ -32,12 +32,15 @@ HCSCHED = os.path.join(SCHED_TARGET, "release", "hcsched")
 MARK = "// VERIF"
 
 SPEC = {
-    "lean_modules": ["Honeycomb.Props.C07"],
-    "required_theorems": ["C07_serializable", "C07_only_valid_commits_publish", "T3_validated_commit"],
+    "lean_modules": ["Honeycomb.Props.C07", "Honeycomb.Props.C07B"],
+    "required_theorems": ["C07_serializable", "C07_only_valid_commits_publish", "T3_validated_commit",
+                          "C07_serializable_B", "C07_locks_exclusive_B"],
     "trusted_base": [
         "Lean 4.33 kernel; axioms propext, Classical.choice, Quot.sound only",
-        "protocol model of fast-stm (Honeycomb/Model/StmProto.lean): per-variable versions, logged first reads, commit = one atomic "
-        "validate-then-publish step, restart on failed validation, abort returns without publishing",
+        "protocol models of fast-stm: Honeycomb/Model/StmProto.lean (per-variable versions, logged first reads, commit = one atomic "
+        "validate-then-publish step, restart on failed validation, abort returns without publishing) and Model/StmProtoB.lean (commit "
+        "= per-variable lock acquisition with validation under the lock, blocking, then one publish step) — hand-written after "
+        "fast-stm 0.5.0 src/transaction/mod.rs",
         "vendored fast-stm 0.5.0 = registry copy + lines tagged `// VERIF` (checked byte-for-byte on every run) + src/verif.rs (hook, "
         "no-op when no scheduler is installed)",
         "schedule explorer hcsched (baton scheduler, DFS/PCT/random strategies), hcimpl, hcmodel, tools/*.py",
@@ -52,15 +55,23 @@ SPEC = {
         "the quantifier 'every interleaving' is covered exhaustively only up to the preemption bound printed in the statistics (all "
         "schedules with <= P preemptions of every scenario; full DFS where marked exhaustive), by PCT/random sampling beyond",
     ],
-    "rule": "scenario = small initial map + 2..4 threads x 1..2 transactions x 1..3 protocol ops; every schedule with <= P preemptions "
+    "rule": "scenario = small initial map + 2..4 threads x 1..2 units of work (a transaction block of 1..3 protocol ops: sews, unsews, "
+            "links, attribute/vertex reads and writes, id/orbit queries, the kernels insv/insvs/fan/earclip/cutout/cutin/swap/collapse; or a "
+            "public call running its own transaction: set_beta/set_betas); families: read-modify-write, link pairs, queries vs edits, "
+            "sews around one vertex, 3-D sews, 3-sew vs 1-link of the face, vertex insertion vs edits of its spare darts, set_betas vs "
+            "row readers, remeshing kernels vs sews/unsews/kernels on neighbouring triangles (a kernel's retry() really blocks or "
+            "restarts under the scheduler), random blocks; every schedule with <= P preemptions "
             "(P = 2 quick, 3 thorough; deepened to full DFS for tiny scenarios) plus seeded random and PCT(d=3) schedules for the bigger "
             "ones is executed on the real crates; per distinct outcome (commit order, results, final snapshot): no panic/hang/deadlock; "
             "results and snapshot = sequential hcimpl run of the committed transactions in commit order (else in some other order); "
             "hcmodel agrees on that sequential script; wf true true true. cases = sequential scripts compared; "
             "'sched' in the statistics = what the explorer covered.",
     "not_proved": [
-        "interleavings inside commit on the real locks (granularity B: lock in address order, validate, publish, unlock) and absence of "
-        "deadlock there; memory ordering; wait_for_change",
+        "lock granularity (Model/StmProtoB.lean, theorem C07_serializable_B) IS proved for the model in which commit() takes the locks "
+        "one variable at a time, validates each variable under its lock, blocks on incompatible locks, and finally publishes in one "
+        "step; NOT proved: absence of deadlock (needs the address order of lock acquisition, left arbitrary in the model), the "
+        "per-variable stores of the final publish step (one step in the model: every written variable is exclusively locked meanwhile), "
+        "memory ordering, wait_for_change",
         "the premise that operations touch shared memory only through Transaction::read/write is a fact about the code, not a theorem: "
         "the explorer reports every non-transactional read it sees ('atomic_reads' in the statistics) and keeps the scenarios that "
         "exhibited D4 (three_sew/three_unsew walked the faces with orbit(); repaired in f79acf8) and D3 (insert_vertex(es)_on_edge "
@@ -481,14 +492,16 @@ def remesh_scenarios():
     out.append(Scenario("cutin-vs-unsew", sewn, [[["cutin 2 7 8 9 10 11 12"]], [["unsew 2 4"], ["sew 2 2 4"]]], tags={"remesh"}))
     out.append(Scenario("swap-vs-cutout", sewn, [[["swap 2"]], [["cutout 1 7 8 9"]]], tags={"remesh"}))
     out.append(Scenario("swap-vs-swap-back", sewn, [[["swap 2"], ["swap 2"]], [["vid 3", "rv 3", "orbit f 1"]]], tags={"remesh"}))
-    out.append(Scenario("collapse-vs-cutout", sewn, [[["collapse 2"]], [["cutout 5 7 8 9"]]], tags={"remesh"}))
     out.append(Scenario("insv-vs-cutout", sewn, [[["insv 2 7 8 -"]], [["cutout 5 9 10 11"]]], tags={"remesh"}))
     out.append(Scenario("insv-vs-swap", sewn, [[["insv 1 7 0 1/4"]], [["swap 2"]]], tags={"remesh"}))
     # 2 x 1 split grid: triangles (1,2,3) (4,5,6) | (7,8,9) (10,11,12), inner edges 2|4, 5|9, 8|10; spare darts 13..27
     g = normalize_init(["grid 2 1 0 ncl 0 0 2 1 1 1", "add 15"])
-    out.append(Scenario("grid-collapse-vs-cutout", g, [[["collapse 5"]], [["cutout 11 13 14 15"]]], tags={"remesh"}))
-    out.append(Scenario("grid-collapse-vs-swap", g, [[["collapse 5"]], [["swap 2"]]], tags={"remesh"}))
-    out.append(Scenario("grid-collapse-vs-unsew", g, [[["collapse 8"]], [["unsew 2 2"]]], tags={"remesh"}))
+    # (on these meshes only the boundary edges 6 and 7 can be collapsed)
+    out.append(Scenario("grid-collapse-vs-cutout", g, [[["collapse 6"]], [["cutout 11 13 14 15"]]], tags={"remesh"}))
+    out.append(Scenario("grid-collapse-vs-cutout-near", g, [[["collapse 7"]], [["cutout 1 13 14 15"], ["rv 2"]]], tags={"remesh"}))
+    out.append(Scenario("grid-collapse-vs-swap", g, [[["collapse 7"]], [["swap 2"]]], tags={"remesh"}))
+    out.append(Scenario("grid-collapse-vs-unsew", g, [[["collapse 6"]], [["unsew 2 8"], ["vid 9", "rv 5"]]], tags={"remesh"}))
+    out.append(Scenario("grid-collapse-vs-collapse", g, [[["collapse 6"]], [["collapse 7"]]], tags={"remesh"}))
     out.append(Scenario("grid-swap-vs-swap", g, [[["swap 2"]], [["swap 8"]], [["swap 5"]]], {"preempt": 1, "cap": 20000, "random": 300, "pct": 300}, tags={"remesh"}))
     out.append(Scenario("grid-cutin-vs-cutin", g, [[["cutin 2 13 14 15 16 17 18"]], [["cutin 8 19 20 21 22 23 24"]]], tags={"remesh"}))
     out.append(Scenario("grid-cutin-vs-swap", g, [[["cutin 5 13 14 15 16 17 18"]], [["swap 2"]]], tags={"remesh"}))
@@ -934,7 +947,7 @@ def check_scenarios(binary, scs, jobs=4):
             agg["scenarios_with_retries"] += sm["retries"] > 0
             agg["scenarios_with_2plus_commit_orders"] += sm["distinct_commit_orders"] >= 2
             agg["max_distinct_commit_orders"] = max(agg["max_distinct_commit_orders"], sm["distinct_commit_orders"])
-            fam = sorted(s.tags)[0] if s.tags else "other"
+            fam = sorted(s.tags - {"raw"})[0] if s.tags - {"raw"} else "other"
             f = agg["by_family"].setdefault(fam, {"scenarios": 0, "schedules": 0, "outcomes": 0, "retries": 0})
             f["scenarios"] += 1
             f["schedules"] += sm["schedules"]
@@ -1116,7 +1129,8 @@ def selftest_repo():
     text = open(cfg).read().replace("/verif/.build/sched-target", os.path.join(hv.BUILD, "sched-selftest-repo-target"))
     open(cfg, "w").write(text)
     man = os.path.join(scratch, "hcsched", "Cargo.toml")
-    open(man, "w").write(open(man).read().replace('"/repo/', f'"{scratch_repo}/'))
+    mtext = open(man).read().replace('"/repo/', f'"{scratch_repo}/')
+    open(man, "w").write(mtext)
     rc, out = hv.sh(["cargo", "build", "--release", "--offline"], cwd=scratch, timeout=3000)
     if rc != 0:
         print(out[-3000:])
